@@ -111,6 +111,42 @@ def run_shard(args):
                     diffs.append(None)
         t_impl = time.time() - t0
         extra_fail = mod.extra_checks(ctx) if hasattr(mod, 'extra_checks') else []
+        # several live objects advanced ALTERNATELY (state shared between instances — class attributes, module-level
+        # caches, aliased arguments — shows only then): two cases are merged op by op on the implementation side; the
+        # model ran them one after the other, and its objects are values
+        if hasattr(mod, 'impl_exec_multi') and len(cases) >= 2:
+            irng = random.Random(f'interleave/{prop}/{seed}/{shard}')
+            idx = [k for k, c in enumerate(cases) if 2 <= len(c.ops) <= 400]
+            irng.shuffle(idx)
+            npairs = min(len(idx) // 2, getattr(mod, 'INTERLEAVED_PAIRS', {}).get(tier, 40 if tier == 'quick' else 400))
+            for k in range(npairs):
+                ia, ib = idx[2 * k], idx[2 * k + 1]
+                tagged, exp = [], []
+                pa, pb = 0, 0
+                oa, ob = cases[ia].ops, cases[ib].ops
+                ea = canon_lines(mod, oa, model_out[spans[ia][0]:spans[ia][1]])
+                eb = canon_lines(mod, ob, model_out[spans[ib][0]:spans[ib][1]])
+                while pa < len(oa) or pb < len(ob):
+                    take_a = pb >= len(ob) or (pa < len(oa) and irng.random() < 0.5)
+                    if take_a:
+                        tagged.append(('a', oa[pa])); exp.append(ea[pa]); pa += 1
+                    else:
+                        tagged.append(('b', ob[pb])); exp.append(eb[pb]); pb += 1
+                try:
+                    got = mod.impl_exec_multi(tagged)
+                except Exception as e:
+                    got = [f'EXC {type(e).__name__}: {e}'] * len(tagged)
+                got = canon_lines(mod, [o for _, o in tagged], got)
+                evals += len(tagged)
+                ctx.count('interleaved_pairs')
+                if got != exp:
+                    i = next(i for i, (x, y) in enumerate(zip(got, exp)) if x != y)
+                    extra_fail.append({'key': 'interleaved-instances', 'kind': 'counterexample',
+                                       'tagged_ops': tagged[:i + 1],
+                                       'diff': {'what': 'two live objects advanced alternately: one behaves differently from the '
+                                                        'same object used alone', 'op': tagged[i][1], 'object': tagged[i][0],
+                                                'impl': got[i][:400], 'alone': exp[i][:400]}})
+                    break
         for e in extra_fail:
             e.setdefault('shard', [shard, nshards])     # lets `--replay` re-run exactly this part of the campaign
         distinct.update(ctx.distinct)
@@ -135,6 +171,22 @@ def replay(prop, path):
             print(out[-3000:])
             return 2
         return mod.replay(r)
+    if r.get('tagged_ops') and hasattr(mod, 'impl_exec_multi'):
+        ok, out = common.lake_build(['driver'])
+        tagged = [tuple(x) for x in r['tagged_ops']]
+        driver = CanonSide(mod, common.ModelDriver())
+        exp_by = {tag: driver.run([o for t_, o in tagged if t_ == tag]) for tag in {t_ for t_, _ in tagged}}
+        pos = {tag: 0 for tag in exp_by}
+        got = canon_lines(mod, [o for _, o in tagged], mod.impl_exec_multi(tagged))
+        bad = 0
+        for (tag, o), g in zip(tagged, got):
+            e = exp_by[tag][pos[tag]]
+            pos[tag] += 1
+            mark = '  ' if e == g else '!!'
+            bad += e != g
+            print(f'{mark} [{tag}] {o}\n{mark}   alone      : {e[:300]}\n{mark}   interleaved: {g[:300]}')
+        print(f'{bad} differing line(s)')
+        return 1 if bad else 0
     ops = r.get('ops')
     if not ops and r.get('shard') and hasattr(mod, 'extra_checks') and r.get('key'):
         # a failure found by the module's independent oracle: re-run that shard of the oracle campaign (it is a pure
